@@ -369,6 +369,11 @@ def oracle(run):
         run.case(("commute", repr(d), repr(k)), True, kind="compile-scale-commute")
         for sig, detail in check_commute(d, k):
             run.violate(sig, detail, {"desc": repr(d), "k": repr(k)})
+    # a long document: every one of its (more than thirty) scaled values is multiplied, at every scale
+    from . import c13
+    run.case(("markdown-many",), True, kind="markdown-many-values")
+    for sig, detail in c13.check_many_placeholders():
+        run.violate("C03:markdown-prose-not-scaled", detail, {"markdown_many": True})
     for _ in range(run.budget(12, 200)):
         run.case(("markdown", run.evaluations), True, kind="markdown+standalone")
         seed = run.rng.randint(0, 10 ** 9)
@@ -380,6 +385,12 @@ def oracle(run):
 def replay(run, obj):
     from .c02 import tree_of_sexp
     r = obj["replay"]
+    if r.get("markdown_many"):
+        from . import c13
+        res = c13.check_many_placeholders()
+        for x in res:
+            print(*x)
+        return bool(res)
     if "markdown_seed" in r:
         import random as _r
         res = check_markdown(_r.Random(r["markdown_seed"]))
